@@ -178,6 +178,12 @@ func (p *parser) recover(errp *error) {
 
 // stopParse terminates parsing.
 func (p *parser) stopParse() {
+	if p.lex != nil {
+		// Let the lexer goroutine run to completion,
+		// otherwise it stays blocked on its next token forever.
+		for range p.lex.tokens {
+		}
+	}
 	p.lex = nil
 }
 
